@@ -7,7 +7,7 @@ Open Scope N_scope.
 (* what the node read from its socket in this iteration *)
 Inductive kin := KNone | KResp (who : nat) | KReq (who : nat) (counted : bool).   (* counted: find_node, not read-only, node in server mode *)
 
-Record tk := { k_now : Z; k_in : kin; k_pinged : list (N * N); k_table : list nat; k_signed : list nat; k_boot_up : bool }.
+Record tk := { k_now : Z; k_in : kin; k_pinged : list (N * N); k_table : list nat; k_signed : list nat; k_boot_up : bool; k_known_up : bool }.
 
 Inductive c14case :=
 (* legacy: identities that do not announce support for signed peers *)
@@ -57,7 +57,7 @@ Definition bucket_full (self : id) (ids : list (N * N * N)) (k : nat) (dump : li
 Definition held (self : id) (ids : list (N * N * N)) (k : nat) (dump : list nat) : bool :=
   in_dump k dump || bucket_full self ids k dump.
 
-Fixpoint run14_pb (self : id) (ids : list (N * N * N)) (legacy : list nat) (gap : Z) (last lastS : list (nat * Z)) (empty_run : nat) (ticks : list tk) : bool :=
+Fixpoint run14_pb (self : id) (ids : list (N * N * N)) (legacy : list nat) (gap : Z) (last lastS : list (nat * Z)) (empty_run : nat) (lost : option nat) (ticks : list tk) : bool :=
   match ticks with
   | [] => true
   | t :: r =>
@@ -80,14 +80,22 @@ Fixpoint run14_pb (self : id) (ids : list (N * N * N)) (legacy : list nat) (gap 
       && forallb (fun k => existsb (fun e : nat * Z => Nat.eqb k (fst e)) last') (k_table t)
       (* never stays empty while the bootstrap node answers *)
       && (let run' := if k_boot_up t && match k_table t with [] => true | _ => false end then S empty_run else O in
-          (run' <=? 8)%nat && run14_pb self ids legacy gap last' lastS' run' r)
+          (* ... nor while a known peer is reachable: when the table turns empty although one of its (at most 20) entries
+             has been up ever since it entered the table (k_known_up: an observation about the world), it is non-empty again
+             within 30 iterations - the refresh asked that peer before the stale entries were dropped *)
+          let lost' := match k_table t with
+                       | [] => match lost with Some n => Some (S n) | None => if k_known_up t then Some 1%nat else None end
+                       | _ => None
+                       end in
+          (run' <=? 8)%nat && (match lost' with Some n => (n <=? 30)%nat | None => true end)
+          && run14_pb self ids legacy gap last' lastS' run' lost' r)
   end.
 
 Definition check14 (c : c14case) : list N :=
   match c with
   | KTimeline self ids legacy gap t0 ticks =>
       (if run14_model ids legacy (mt_new (N_to_be 20 self) t0) ticks then [] else [1]) ++
-      (if run14_pb (N_to_be 20 self) ids legacy gap [] [] 0 ticks then [] else [2])
+      (if run14_pb (N_to_be 20 self) ids legacy gap [] [] 0 None ticks then [] else [2])
   end.
 
 Fixpoint run14 (k : N) (cs : list c14case) : list (N * N) :=
